@@ -1,0 +1,142 @@
+//! Verification seam (feature `verif-hooks` only; not part of the public API).
+//!
+//! Drop-in stand-ins, under their `std` names, for the handful of calls through which
+//! `Local` on Unix meets the outside world: the wall clock, the `TZ` environment
+//! variable, `/etc/localtime` and the zoneinfo files, and the system zone name lookup.
+//!
+//! Every stand-in consults a **thread-local** [`World`]. If the calling thread has not
+//! installed one, the call goes straight to the real `std` / `iana_time_zone` function, so
+//! a build with the feature enabled behaves exactly as shipped until a test harness
+//! installs a world on a thread it owns.
+
+use std::cell::RefCell;
+use std::io;
+use std::path::Path;
+use std::sync::Arc;
+use std::time::{Duration, SystemTimeError};
+
+/// Everything `Local` on Unix reads from its environment.
+pub trait World: Send + Sync {
+    /// `SystemTime::now()`
+    fn now(&self) -> std::time::SystemTime;
+    /// `std::env::var(key)`
+    fn env_var(&self, key: &str) -> Result<String, std::env::VarError>;
+    /// `fs::symlink_metadata(path)` followed by `Metadata::modified()`:
+    /// the outer result is the `lstat`, the inner one the availability of the mtime.
+    fn symlink_mtime(&self, path: &Path) -> io::Result<io::Result<std::time::SystemTime>>;
+    /// `File::open(path)`; the returned reader serves the file's bytes.
+    fn open(&self, path: &Path) -> io::Result<Box<dyn io::Read>>;
+    /// `iana_time_zone::get_timezone()`
+    fn system_tz_name(&self) -> Option<String>;
+}
+
+thread_local! {
+    static WORLD: RefCell<Option<Arc<dyn World>>> = const { RefCell::new(None) };
+}
+
+/// Install (or with `None` remove) the world seen by the calling thread.
+/// Returns the previously installed world.
+pub fn install(world: Option<Arc<dyn World>>) -> Option<Arc<dyn World>> {
+    WORLD.with(|w| std::mem::replace(&mut *w.borrow_mut(), world))
+}
+
+fn world() -> Option<Arc<dyn World>> {
+    // `try_with`: during thread teardown fall through to the real world.
+    WORLD.try_with(|w| w.borrow().clone()).ok().flatten()
+}
+
+/// Stand-in for `std::time::SystemTime` (only what `unix.rs` uses).
+#[derive(Clone, Copy, Debug, PartialEq, Eq)]
+pub(crate) struct SystemTime(std::time::SystemTime);
+
+impl SystemTime {
+    pub(crate) fn now() -> SystemTime {
+        match world() {
+            Some(w) => SystemTime(w.now()),
+            None => SystemTime(std::time::SystemTime::now()),
+        }
+    }
+
+    pub(crate) fn duration_since(&self, earlier: SystemTime) -> Result<Duration, SystemTimeError> {
+        self.0.duration_since(earlier.0)
+    }
+}
+
+/// Stand-in for `std::env`.
+pub(crate) mod env {
+    pub(crate) fn var(key: &str) -> Result<String, std::env::VarError> {
+        match super::world() {
+            Some(w) => w.env_var(key),
+            None => std::env::var(key),
+        }
+    }
+}
+
+/// Stand-in for `std::fs`.
+pub(crate) mod fs {
+    use std::io::{self, Read};
+    use std::path::Path;
+
+    use super::SystemTime;
+
+    pub(crate) struct Metadata(io::Result<SystemTime>);
+
+    impl Metadata {
+        pub(crate) fn modified(self) -> io::Result<SystemTime> {
+            self.0
+        }
+    }
+
+    pub(crate) fn symlink_metadata<P: AsRef<Path>>(path: P) -> io::Result<Metadata> {
+        match super::world() {
+            Some(w) => Ok(Metadata(w.symlink_mtime(path.as_ref())?.map(SystemTime))),
+            None => Ok(Metadata(std::fs::symlink_metadata(path)?.modified().map(SystemTime))),
+        }
+    }
+
+    pub(crate) enum File {
+        Real(std::fs::File),
+        Sim(Box<dyn Read>),
+    }
+
+    impl File {
+        pub(crate) fn open<P: AsRef<Path>>(path: P) -> io::Result<File> {
+            match super::world() {
+                Some(w) => Ok(File::Sim(w.open(path.as_ref())?)),
+                None => Ok(File::Real(std::fs::File::open(path)?)),
+            }
+        }
+    }
+
+    impl Read for File {
+        fn read(&mut self, buf: &mut [u8]) -> io::Result<usize> {
+            match self {
+                File::Real(f) => f.read(buf),
+                File::Sim(r) => r.read(buf),
+            }
+        }
+    }
+
+    pub(crate) fn read<P: AsRef<Path>>(path: P) -> io::Result<Vec<u8>> {
+        match super::world() {
+            Some(_) => {
+                // what `std::fs::read` does: open, then read to the end
+                let mut file = File::open(path)?;
+                let mut bytes = Vec::new();
+                file.read_to_end(&mut bytes)?;
+                Ok(bytes)
+            }
+            None => std::fs::read(path),
+        }
+    }
+}
+
+/// Stand-in for the `iana_time_zone` crate.
+pub(crate) mod iana_time_zone {
+    pub(crate) fn get_timezone() -> Result<String, ()> {
+        match super::world() {
+            Some(w) => w.system_tz_name().ok_or(()),
+            None => ::iana_time_zone::get_timezone().map_err(|_| ()),
+        }
+    }
+}
